@@ -89,6 +89,20 @@ def specs():
         for k in PCT_KEYS:
             out.append(("%s.%s" % (metric, k), "down", (lambda metric, k: lambda v: op(metric, k, v))(metric, k)))
     out.append(("error_rate", "down", lambda v: op("error_rate", None, v)))
+
+    # disk usage per index and field (bytes; rows whose values are zero on both sides are hidden by design, see table_row)
+    def du(stat, v):
+        if v is None:
+            return {}
+        # a race written by Rally carries all seven lists (GlobalStatsCalculator always sets them)
+        d = {"disk_usage_" + k: [] for k in ("inverted_index", "stored_fields", "doc_values", "points", "norms", "term_vectors")}
+        d["disk_usage_total"] = [{"index": "idx", "field": "fld", "value": v if stat == "total" else 4096, "unit": "byte"}]
+        if stat != "total":
+            d["disk_usage_" + stat] = [{"index": "idx", "field": "fld", "value": v, "unit": "byte"}]
+        return d
+
+    for stat in ("total", "inverted_index", "stored_fields", "doc_values", "points", "norms", "term_vectors"):
+        out.append(("disk_usage_per_field.%s" % stat, "down", (lambda stat: lambda v: du(stat, v))(stat)))
     return out
 
 
@@ -111,10 +125,12 @@ def table_row(sl):
     pb, pc = bool(fresh_bool("baseline_present")), bool(fresh_bool("contender_present"))
     b = fresh_real("b") if pb else None
     c = fresh_real("c") if pc else None
-    if sl.get("nonneg"):
+    if sl.get("nonneg") or label.startswith("disk_usage_per_field"):
         for v in (b, c):
             if v is not None:
                 core.assume(v >= 0)
+    if label.startswith("disk_usage_per_field") and pb and pc:
+        core.assume(core.s_not(s_and(b == 0, c == 0)))  # a field that uses no space in either race is not listed (by design)
     B = metrics.GlobalStats(build(b))
     C = metrics.GlobalStats(build(c))
     r = _reporter()
@@ -188,7 +204,8 @@ def table_row(sl):
             all((x is y) or (strip(x) == y) for x, y in zip(row, prow)) and all(colour(x) == "plain" for x in prow))
     # self comparison
     observe("self comparison: same rows, all neutral", all(colour(r_[4]) == "neutral" and colour(r_[6]) == "neutral" and "+" not in strip(r_[4])
-                                                           and "+" not in strip(r_[6]) for r_ in selfcmp) and len(selfcmp) >= 1)
+                                                           and "+" not in strip(r_[6]) for r_ in selfcmp)
+            and (len(selfcmp) >= 1 or (label.startswith("disk_usage_per_field") and bool(b == 0))))
 
 
 def report_output(sl):
@@ -241,6 +258,39 @@ def multi_task(sl):
             observe("values of task %s are its own" % t, rows[0][2] is vals[("baseline", t)] and rows[0][3] is vals[("contender", t)])
 
 
+def disk_usage_fields(sl):
+    """two fields of one index with symbolic sizes on each side: a field present in both races is listed once with its own values"""
+    keys = [(side, f) for side in ("baseline", "contender") for f in ("f1", "f2")]
+    has = {k: bool(sl["mask"] >> i & 1) for i, k in enumerate(keys)}
+    vals = {k: fresh_real("bytes_%s_%s" % k, 0) for k in has}
+    for v in vals.values():
+        core.assume(v > 0)
+
+    def res(side):
+        d = {"disk_usage_" + k: [] for k in ("inverted_index", "stored_fields", "doc_values", "points", "norms", "term_vectors")}
+        d["disk_usage_total"] = [{"index": "idx", "field": f, "value": vals[(side, f)], "unit": "byte"} for f in ("f1", "f2") if has[(side, f)]]
+        return d
+
+    r = _reporter()
+    with shadowed(reporter, ("round",)):
+        rich = r._metrics_table(metrics.GlobalStats(res("baseline")), metrics.GlobalStats(res("contender")), plain=False)
+    core.trace("rows", len(rich))
+    core.note("rows", [[strip(x) if isinstance(x, str) else "<num>" for x in row] for row in rich])
+    for f in ("f1", "f2"):
+        rows = [row for row in rich if row[0] == "idx %s total" % f]
+        if has[("baseline", f)] and has[("contender", f)]:
+            observe("field %s present in both races is listed exactly once" % f, len(rows) == 1)
+            if len(rows) == 1:
+                b, c = vals[("baseline", f)], vals[("contender", f)]
+                fb, fc = rows[0][2], rows[0][3]
+                observe("field %s: baseline and contender columns are its own sizes in one common unit" % f,
+                        s_or(*[s_and(fb * k == b, fc * k == c) for k in (1, 1024, 1024 * 1024, 1024 * 1024 * 1024)]))
+                observe("field %s: growth is a regression, shrinking an improvement" % f,
+                        implies(fc - fb >= 1e-5, colour(rows[0][4]) == "red") & implies(fc - fb <= -1e-5, colour(rows[0][4]) == "green"))
+        else:
+            observe("field %s is never listed more than once" % f, len(rows) <= 1)
+
+
 READS = [reporter.ComparisonReporter._metrics_table, reporter.ComparisonReporter._line, reporter.ComparisonReporter._diff,
          reporter.ComparisonReporter._report_throughput, reporter.ComparisonReporter._report_percentiles, reporter.ComparisonReporter._report_error_rate,
          reporter.ComparisonReporter._report_total_times, reporter.ComparisonReporter._report_gc_metrics, reporter.ComparisonReporter._report_disk_usage,
@@ -257,5 +307,8 @@ HARNESSES = [
     Harness("report_output", report_output, "symbolic", lambda tier: [{"spec": i} for i in (0, 30, len(SPECS) - 1)], reads=READS,
             stubs=["write_single_report / print_internal / print_header replaced by recorders"], real_valued=True,
             doc="file output = console output without colour codes"),
+    Harness("disk_usage_fields", disk_usage_fields, "symbolic", lambda tier: [{"mask": m} for m in range(16)], reads=READS + [reporter.ComparisonReporter._report_disk_usage_stats_per_field],
+            real_valued=True, bounds={"fields": "2 fields of one index, each present or absent per race", "sizes": "symbolic reals > 0"},
+            doc="disk usage per field: one row per field present in both races, own values, direction"),
     Harness("multi_task", multi_task, "symbolic", lambda tier: [{}], reads=READS, real_valued=True, doc="tasks compared iff present in both races"),
 ]
